@@ -292,6 +292,8 @@ impl BuiltInFunction {
                     call_stack: Rc<RefCell<Stack>>,
                     filter_result: GcVector,
                     index: Cell<i32>,
+                    /// the element the callback is deciding on
+                    current: RefCell<Option<Primitive>>,
                 }
 
                 impl FilterOp {
@@ -307,6 +309,7 @@ impl BuiltInFunction {
                             filter_result: GcVector::default(),
                             underlying,
                             index: Cell::new(0),
+                            current: RefCell::new(None),
                         }
                     }
                 }
@@ -317,6 +320,9 @@ impl BuiltInFunction {
                         self.index.set(this_index + 1);
                         let underlying = self.underlying.0.borrow();
                         let this_value: Primitive = underlying[this_index as usize].clone();
+                        // the callback may change the list: what it keeps or drops is THIS element,
+                        // not whatever stands at the index when it returns
+                        *self.current.borrow_mut() = Some(this_value.clone());
 
                         Ok(JumpRequest {
                             destination: JumpRequestDestination::Standard(
@@ -330,14 +336,15 @@ impl BuiltInFunction {
 
                     fn then(&self, return_value: ReturnValue) -> Result<bool> {
                         let mut result = self.filter_result.0.borrow_mut();
+                        let current = self.current.borrow_mut().take();
 
                         if let ReturnValue::Value(Primitive::Bool(true)) = return_value {
                             let underlying = self.underlying.0.borrow();
                             let this_index: usize = (self.index.get() - 1).try_into()?;
-                            let Some(kept) = underlying.get(this_index) else {
+                            let (Some(kept), true) = (current, this_index < underlying.len()) else {
                                 bail!("the list changed while it was being filtered (index {this_index}, len {})", underlying.len())
                             };
-                            result.push(kept.clone());
+                            result.push(kept);
                         }
 
                         Ok(<i32 as TryInto<usize>>::try_into(self.index.get())?
